@@ -165,6 +165,15 @@ def run(item, ctx, tier, seed):
                             expected=[psum, nsum],
                         )
                     ctx.outcome((cfg, ep, en, tuple(map(tuple, ml[k]))))
+                if fi == 0 and (ep, en) in ((0, 0), (b["easy"][-1], 1)) and len(T) > 2:
+                    # the caller reuses one threshold buffer: fill, query, refill in place, query again
+                    buf = Tarr.copy()
+                    ok, _ = guarded(ctx, "cm-buffer", case, lambda: s.cm(buf).matrix)
+                    buf[:] = buf[::-1].copy()
+                    ok2, m2 = guarded(ctx, "cm-buffer", case, lambda: s.cm(buf).matrix)
+                    ctx.tick()
+                    if ok and ok2 and m2.tolist() != ml[::-1]:
+                        ctx.fail("cm-equals-counting-after-buffer-refill", case, observed=m2.tolist(), expected=ml[::-1])
                 if fi == 0:
                     # scalar calls (for a sub-menu of easy counts) and the six rates
                     if (ep, en) in ((0, 0), (b["easy"][-1], 1)):
